@@ -1,0 +1,23 @@
+// Copyright 2021 TiKV Project Authors.
+//
+// Licensed under the Apache License, Version 2.0 (the "License");
+// you may not use this file except in compliance with the License.
+// You may obtain a copy of the License at
+//
+//     http://www.apache.org/licenses/LICENSE-2.0
+//
+// Unless required by applicable law or agreed to in writing, software
+// distributed under the License is distributed on an "AS IS" BASIS,
+// See the License for the specific language governing permissions and
+// limitations under the License.
+
+//go:build verif
+// +build verif
+
+package replication
+
+// VerifTickDR runs one tick of the dr-auto-sync state machine (Run waits a minute before its first tick).
+func (m *ModeManager) VerifTickDR() { m.tickDR() }
+
+// VerifSetScanSizes sets the region scan batch size and the minimum sample size of the recovery progress scan.
+func VerifSetScanSizes(batch, sample int) { regionScanBatchSize, regionMinSampleSize = batch, sample }
